@@ -528,16 +528,25 @@ def read_local(L, idx, st):
         x = to_x(i)
         if x is None: return Opaque("local array index")
         xs.append(x)
-    for rec in reversed(L.stores):
-        if rec[0] == "opaque": return rec[1]
-        binders, sidx, val = rec[0], rec[1], rec[2]
-        m = match_store(binders, sidx, xs, st)
-        if m is True: return val
-        if m is False: continue
-        if m is None: return Opaque("cannot decide whether a store aliases the read")
-        return subst_val(val, m)
-    if L.fill is not None: return L.fill
-    return Opaque(f"read of unset element of {L.name}")
+    def older(k):
+        """value seen through the stores 0..k-1 (last matching store wins; a store made under a condition only wins when it holds)."""
+        for j in range(k - 1, -1, -1):
+            rec = L.stores[j]
+            if rec[0] == "opaque": return rec[1]
+            binders, sidx, val = rec[0], rec[1], rec[2]
+            m = match_store(binders, sidx, xs, st)
+            if m is False: continue
+            if m is None: return Opaque("cannot decide whether a store aliases the read")
+            v = val if m is True else subst_val(val, m)
+            conds = [e for e in rec[3:] if isinstance(e, tuple) and e and e[0] == "under"]
+            if conds:
+                rest = older(j)
+                for _, c_, p_ in conds:
+                    v = mk_pv(c_, v, rest) if p_ else mk_pv(c_, rest, v)
+            return v
+        if L.fill is not None: return L.fill
+        return Opaque(f"read of unset element of {L.name}")
+    return older(len(L.stores))
 
 
 def match_store(binders, sidx, xs, st):
@@ -623,6 +632,34 @@ def local_to_arr_slice(L, idx, st):
     return arr_getitem(A, idx)
 
 
+def _store_local(interp, o, t, v, st, aug, idx):
+    st.events.append(("store", o.ident, o.name, idx, t))
+    if any(is_opaque(i) for i in idx):
+        o.stores.append(("opaque", Opaque("store at opaque index"))); return
+    if all(to_x(i) is not None for i in idx):
+        o.stores.append(((), tuple(to_x(i) for i in idx), v)); return
+    # slice store
+    if len(idx) == 1 and isinstance(idx[0], tuple) and idx[0][0] == "slice":
+        lo, hi, step = idx[0][1:]
+        if step is not None:
+            o.stores.append(("opaque", Opaque("strided slice store"))); return
+        lo = X.const(0) if lo is None else to_x(lo)
+        hi = o.shape[0] if hi is None else to_x(hi)
+        V_ = as_arr(v) if not isinstance(v, LocalArr) else local_to_arr(v)
+        tv = fresh("t")
+        if V_ is None:
+            o.stores.append((((tv, hi - lo),), (lo + X.var(tv),), v)); return
+        if V_.ndim != 1:
+            o.stores.append(("opaque", Opaque("slice store of non 1-D value"))); return
+        (vv, vc), = V_.axes
+        if not vc.eq(hi - lo) and not (isinstance(vc, X) and vc.as_int() == 1):
+            o.stores.append((((tv, hi - lo),), (lo + X.var(tv),), Mism(f"slice store length {vc!r} into slot of length {(hi - lo)!r}"))); return
+        o.stores.append((((tv, hi - lo),), (lo + X.var(tv),), subst_val(V_.body, {vv: X.var(tv)})))
+        return
+    o.stores.append(("opaque", Opaque("unsupported store")))
+    return
+
+
 def store_subscript(interp, o, t, v, st, aug):
     idx = _norm_index(interp, t, st)
     # write through a basic-slice view of a named array:  A[lo:hi][mask] = v
@@ -659,32 +696,15 @@ def store_subscript(interp, o, t, v, st, aug):
         A_ = local_to_arr(o) if (o.stores or o.fill is not None) else None
         if (A_ is None or is_opaque(A_)) and o.stores: A_ = local_to_arr(o, st)
         if A_ is not None and not is_opaque(A_): o = A_
-    if isinstance(o, LocalArr):
-        st.events.append(("store", o.ident, o.name, idx, t))
-        if any(is_opaque(i) for i in idx):
-            o.stores.append(("opaque", Opaque("store at opaque index"))); return
-        if all(to_x(i) is not None for i in idx):
-            o.stores.append(((), tuple(to_x(i) for i in idx), v)); return
-        # slice store
-        if len(idx) == 1 and isinstance(idx[0], tuple) and idx[0][0] == "slice":
-            lo, hi, step = idx[0][1:]
-            if step is not None:
-                o.stores.append(("opaque", Opaque("strided slice store"))); return
-            lo = X.const(0) if lo is None else to_x(lo)
-            hi = o.shape[0] if hi is None else to_x(hi)
-            V_ = as_arr(v) if not isinstance(v, LocalArr) else local_to_arr(v)
-            tv = fresh("t")
-            if V_ is None:
-                o.stores.append((((tv, hi - lo),), (lo + X.var(tv),), v)); return
-            if V_.ndim != 1:
-                o.stores.append(("opaque", Opaque("slice store of non 1-D value"))); return
-            (vv, vc), = V_.axes
-            if not vc.eq(hi - lo) and not (isinstance(vc, X) and vc.as_int() == 1):
-                o.stores.append((((tv, hi - lo),), (lo + X.var(tv),), Mism(f"slice store length {vc!r} into slot of length {(hi - lo)!r}"))); return
-            o.stores.append((((tv, hi - lo),), (lo + X.var(tv),), subst_val(V_.body, {vv: X.var(tv)})))
-            return
-        o.stores.append(("opaque", Opaque("unsupported store")))
+    if isinstance(o, LocalArr) and getattr(st, "under", None):
+        n0_ = len(o.stores)
+        _store_local(interp, o, t, v, st, aug, idx)
+        ext = tuple(("under", c_, p_) for c_, p_ in st.under)
+        for k_ in range(n0_, len(o.stores)):
+            if o.stores[k_][0] != "opaque": o.stores[k_] = o.stores[k_] + ext
         return
+    if isinstance(o, LocalArr):
+        _store_local(interp, o, t, v, st, aug, idx); return
     if isinstance(o, ListVal):
         i = to_x(idx[0]) if not isinstance(idx[0], tuple) else None
         if i is None: return
